@@ -333,7 +333,7 @@ theorem map_decodeAt (names : List Bytes) (nref : Nat) (recs : List Rec) :
       rw [h1, h2]
       exact ih _ (fun q hq => hv q (by simp [hq]))
 
-theorem chromNew_spec (names : List Bytes) (ref : Int) (h1 : -1 ≤ ref) (h2 : ref < (names.length : Int)) :
+theorem chromNew_spec (names : List Bytes) (ref : Int) (h2 : ref < (names.length : Int)) :
     chromNew names ref = (specChrom names ref).getD star := by
   unfold chromNew specChrom
   by_cases h : ref < 0
@@ -347,7 +347,7 @@ theorem decoded_eq_view (names : List Bytes) (r : Rec) (hv : valid names.length 
     decoded names r = view names r := by
   have F := valid_facts _ r hv
   unfold decoded view
-  rw [chromNew_spec names r.refID F.ref_lo F.ref_hi]
+  rw [chromNew_spec names r.refID F.ref_hi]
 
 /-- all complete records of a chunk and the number of bytes they occupy -/
 theorem decodeChunk_encode (names : List Bytes) (recs : List Rec) (hv : ∀ r ∈ recs, valid names.length r = true)
@@ -395,5 +395,399 @@ theorem decode_encode (names : List Bytes) (recs : List Rec) (hv : ∀ r ∈ rec
       simp only [List.append_nil] at this
       rw [this]
     · rw [decodeChunk_encode names (r :: rs) hv [10] stops_newline]
+
+/-! ### write back: selected records are written as their own bytes -/
+
+theorem bounds_get (recs : List Rec) : ∀ (s i : Nat), i ≤ recs.length →
+    (bounds s recs)[i]? = some (s + (encodeAll (recs.take i)).length) := by
+  induction recs with
+  | nil => intro s i hi; simp at hi; subst hi; simp [bounds, encodeAll]
+  | cons r rs ih =>
+    intro s i hi
+    cases i with
+    | zero => simp [bounds, encodeAll]
+    | succ i =>
+      simp only [bounds, List.getElem?_cons_succ, List.take_succ_cons, encodeAll_cons, List.length_append]
+      rw [ih _ i (by simpa using hi)]
+      simp; omega
+
+theorem slice_record (recs : List Rec) (tail : Bytes) (i : Nat) (r : Rec) (hi : recs[i]? = some r) :
+    slice (encodeAll recs ++ tail) (encodeAll (recs.take i)).length (encodeRec r).length = encodeRec r := by
+  have hlt : i < recs.length := by
+    rcases Nat.lt_or_ge i recs.length with h | h
+    · exact h
+    · rw [List.getElem?_eq_none h] at hi; cases hi
+  have hsplit : recs = recs.take i ++ (r :: recs.drop (i + 1)) := by
+    have h1 : recs.drop i = r :: recs.drop (i + 1) := by
+      rw [List.drop_eq_getElem_cons hlt]
+      congr 1
+      rw [List.getElem?_eq_getElem hlt] at hi
+      exact Option.some.inj hi
+    rw [← h1, List.take_append_drop]
+  have : encodeAll recs ++ tail = encodeAll (recs.take i) ++ (encodeRec r ++ (encodeAll (recs.drop (i + 1)) ++ tail)) := by
+    conv => lhs; rw [hsplit]
+    simp [encodeAll_append, encodeAll_cons]
+  rw [this]
+  exact slice_seg _ _ _ _ _ rfl rfl
+
+/-- bytes written for a selection (`__getitem__` + `_make_contigous`) = the encoding of the selected records -/
+theorem selectBytes_encode (names : List Bytes) (recs : List Rec) (hv : ∀ r ∈ recs, valid names.length r = true)
+    (tail : Bytes) (ht : Stops tail) (idx : List Nat) (hidx : ∀ i ∈ idx, i < recs.length) :
+    selectBytes (encodeAll recs ++ tail) idx = encodeAll (idx.filterMap (recs[·]?)) := by
+  have hlen : recs.length + 2 ≤ (encodeAll recs ++ tail).length + 2 := by
+    have : recs.length ≤ (encodeAll recs).length := by
+      clear hv hidx
+      induction recs with
+      | nil => simp
+      | cons r rs ih => simp [encodeAll_cons, encodeRec_length]; omega
+    simp; omega
+  have hfs : findStarts (encodeAll recs ++ tail) = bounds 0 recs := by
+    have := findStarts_chain names.length tail ht recs [] _ hv hlen
+    simpa [findStarts] using this
+  unfold selectBytes
+  rw [hfs]
+  induction idx with
+  | nil => simp [encodeAll]
+  | cons i is ih =>
+    have hi := hidx i (by simp)
+    obtain ⟨r, hr⟩ : ∃ r, recs[i]? = some r := ⟨recs[i], List.getElem?_eq_getElem hi⟩
+    have h1 := bounds_get recs 0 i (by omega)
+    have h2 := bounds_get recs 0 (i + 1) (by omega)
+    have ht1 : recs.take (i + 1) = recs.take i ++ [r] := by
+      rw [List.take_add_one, hr]; rfl
+    simp only [List.flatMap_cons, List.filterMap_cons, hr, h1, h2, Nat.zero_add, encodeAll_cons]
+    rw [ih (fun j hj => hidx j (by simp [hj]))]
+    congr 1
+    rw [ht1, encodeAll_append]
+    have : (encodeAll (recs.take i) ++ encodeAll [r]).length - (encodeAll (recs.take i)).length = (encodeRec r).length := by
+      simp [encodeAll]
+    rw [this]
+    exact slice_record recs tail i r hr
+
+/-- **C16 write clause**: what is written for any selection (whole, filtered, reordered, repeated)
+of the records read from a file decodes to exactly the selected records. -/
+theorem write_back (names : List Bytes) (recs : List Rec) (hv : ∀ r ∈ recs, valid names.length r = true)
+    (idx : List Nat) (hidx : ∀ i ∈ idx, i < recs.length) :
+    readWhole false false names (selectBytes (addNewline (encodeAll recs)) idx)
+      = (idx.filterMap (recs[·]?)).map (view names) := by
+  have hsel : selectBytes (addNewline (encodeAll recs)) idx = encodeAll (idx.filterMap (recs[·]?)) := by
+    unfold addNewline
+    split
+    · have := selectBytes_encode names recs hv [] stops_nil idx hidx
+      simpa using this
+    · exact selectBytes_encode names recs hv [10] stops_newline idx hidx
+  rw [hsel]
+  apply decode_encode
+  intro r hr
+  simp only [List.mem_filterMap] at hr
+  obtain ⟨i, _, hi⟩ := hr
+  exact hv r (List.mem_of_getElem? hi)
+
+/-! ### chunked reading (prepend mode) -/
+
+theorem encodeRec_pos (r : Rec) : 36 ≤ (encodeRec r).length := by
+  rw [encodeRec_length]; omega
+
+/-- a strict prefix of an encoded record (followed by anything) stops the boundary chain -/
+theorem stops_prefix (nref : Nat) (r : Rec) (hv : valid nref r = true) (rest : Bytes) (m : Nat)
+    (hm : m < (encodeRec r).length) : Stops ((encodeRec r ++ rest).take m) := by
+  have F := valid_facts nref r hv
+  unfold Stops
+  have hl : ((encodeRec r ++ rest).take m).length = m := by
+    simp; omega
+  rw [hl]
+  rcases Nat.lt_or_ge m 4 with h | h
+  · omega
+  · have h32 : (256 : Nat) ^ 4 = 4294967296 := by decide
+    have : slice ((encodeRec r ++ rest).take m) 0 4 = toLE 4 (32 + (varPart r).length) := by
+      unfold slice
+      simp only [List.drop_zero, List.take_take]
+      rw [Nat.min_eq_left h]
+      have := fixed_block r (varPart r ++ rest)
+      simp only [slice, List.drop_zero] at this
+      simpa [encodeRec] using this
+    rw [this, fromLE_toLE 4 _ (by have := F.block; omega)]
+    rw [encodeRec_length] at hm
+    omega
+
+/-- cutting a concatenation of records at any byte position: complete records, then a strict
+prefix of the next one -/
+theorem split_at (rem : List Rec) : ∀ (n : Nat), n ≤ (encodeAll rem).length →
+    ∃ done todo, rem = done ++ todo ∧ (encodeAll done).length ≤ n ∧
+      (todo = [] ∧ n = (encodeAll done).length ∨
+       ∃ r rs, todo = r :: rs ∧ n < (encodeAll done).length + (encodeRec r).length) := by
+  induction rem with
+  | nil => intro n hn; exact ⟨[], [], rfl, by simp [encodeAll], Or.inl ⟨rfl, by simpa [encodeAll] using hn⟩⟩
+  | cons r rs ih =>
+    intro n hn
+    rcases Nat.lt_or_ge n (encodeRec r).length with h | h
+    · exact ⟨[], r :: rs, rfl, by simp [encodeAll], Or.inr ⟨r, rs, rfl, by simpa [encodeAll] using h⟩⟩
+    · rw [encodeAll_cons, List.length_append] at hn
+      obtain ⟨d, t, hdt, hle, hcase⟩ := ih (n - (encodeRec r).length) (by omega)
+      refine ⟨r :: d, t, by simp [hdt], by simp [encodeAll_cons]; omega, ?_⟩
+      rcases hcase with ⟨ht, hn'⟩ | ⟨q, qs, ht, hn'⟩
+      · exact Or.inl ⟨ht, by simp [encodeAll_cons]; omega⟩
+      · exact Or.inr ⟨q, qs, ht, by simp [encodeAll_cons]; omega⟩
+
+/-- reader invariant: the carried bytes plus the unread bytes are exactly the encoding of the
+records not yet delivered, and the carried bytes are a strict prefix of the next record -/
+structure Inv (st : RState) (rem : List Rec) : Prop where
+  bytes : st.prepend ++ st.rest = encodeAll rem
+  short : ∀ r rs, rem = r :: rs → st.prepend.length < (encodeRec r).length
+  done : rem = [] → st.prepend = []
+
+theorem readChunks_spec (names : List Bytes) (k : Nat) :
+    ∀ (fuel : Nat) (st : RState) (rem : List Rec), Inv st rem → (∀ r ∈ rem, valid names.length r = true) →
+      (∀ r ∈ rem, (encodeRec r).length ≤ k) → st.rest.length < fuel →
+      (readChunks false false names k fuel st).flatten = rem.map (view names) := by
+  intro fuel
+  induction fuel with
+  | zero => intro st rem _ _ _ hf; omega
+  | succ fuel ih =>
+    intro st rem inv hv hk hf
+    simp only [readChunks, readChunk]
+    by_cases hgot : (st.rest.take k).length = 0
+    · -- nothing left to read: every record has been delivered
+      rw [if_pos hgot]
+      have hrem : rem = [] := by
+        cases rem with
+        | nil => rfl
+        | cons r rs =>
+          exfalso
+          have h1 := inv.short r rs rfl
+          have h2 := hk r (by simp)
+          have h3 := encodeRec_pos r
+          have hb := congrArg List.length inv.bytes
+          simp only [List.length_append, encodeAll_cons] at hb
+          simp only [List.length_take] at hgot
+          have : st.rest.length = 0 := by omega
+          omega
+      simp [hrem]
+    · rw [if_neg hgot]
+      simp only
+      by_cases hfin : (st.rest.take k).length < k
+      · -- last read: the chunk is everything that remains (plus the appended newline)
+        have hall : st.rest.take k = st.rest := by
+          apply List.take_of_length_le
+          simp only [List.length_take] at hfin; omega
+        have hfin' : st.rest.length < k := by rw [hall] at hfin; exact hfin
+        simp only [hall, hfin', decide_true, if_true]
+        have hne : rem ≠ [] := by
+          intro h
+          have hb := inv.bytes
+          rw [h] at hb
+          simp only [encodeAll, List.flatMap_nil, List.append_eq_nil_iff] at hb
+          rw [hall, hb.2] at hgot; simp at hgot
+        have hchunk : ∃ tail, Stops tail ∧ st.prepend ++ addNewline st.rest = encodeAll rem ++ tail := by
+          unfold addNewline
+          split
+          · exact ⟨[], stops_nil, by simp [inv.bytes]⟩
+          · exact ⟨[10], stops_newline, by rw [← List.append_assoc, inv.bytes]⟩
+        obtain ⟨tail, ht, hc⟩ := hchunk
+        rw [hc, decodeChunk_encode names rem hv tail ht]
+        have : (rem.map (view names)).isEmpty = false := by
+          cases rem with
+          | nil => exact absurd rfl hne
+          | cons r rs => rfl
+        simp only [this, Bool.false_eq_true, if_false, List.flatten_cons]
+        have hrest : List.drop k st.rest = [] := by
+          apply List.drop_eq_nil_of_le
+          simp only [List.length_take] at hfin; omega
+        rw [hrest]
+        have : readChunks false false names k fuel { rest := [], prepend := [] } = [] := by
+          cases fuel with
+          | zero => rfl
+          | succ f => simp [readChunks, readChunk]
+        rw [this]; simp
+      · -- a full read of k bytes: complete records are delivered, the rest is carried over
+        have hklen : (st.rest.take k).length = k := by
+          simp only [List.length_take] at hfin hgot ⊢; omega
+        have hkpos : 0 < k := by omega
+        have hkle : k ≤ st.rest.length := by
+          simp only [List.length_take] at hklen; omega
+        simp only [hfin, decide_false, Bool.false_eq_true, if_false]
+        -- the chunk is the first `prepend.length + k` bytes of what remains
+        have hpre : st.prepend ++ st.rest.take k = (encodeAll rem).take (st.prepend.length + k) := by
+          rw [← inv.bytes, List.take_append, List.take_of_length_le (Nat.le_add_right _ _), Nat.add_sub_cancel_left]
+        have hn : st.prepend.length + k ≤ (encodeAll rem).length := by
+          rw [← inv.bytes]; simp; omega
+        obtain ⟨d, t, hdt, hle, hcase⟩ := split_at rem _ hn
+        have hvd : ∀ r ∈ d, valid names.length r = true := fun r hr => hv r (by simp [hdt, hr])
+        have hvt : ∀ r ∈ t, valid names.length r = true := fun r hr => hv r (by simp [hdt, hr])
+        have hkt : ∀ r ∈ t, (encodeRec r).length ≤ k := fun r hr => hk r (by simp [hdt, hr])
+        -- tail = the carried-over bytes
+        obtain ⟨tail, htail⟩ : ∃ tail, tail = (encodeAll t).take (st.prepend.length + k - (encodeAll d).length) := ⟨_, rfl⟩
+        have hchunk : st.prepend ++ st.rest.take k = encodeAll d ++ tail := by
+          rw [hpre, hdt, encodeAll_append, List.take_append, htail]
+          congr 1
+          apply List.take_of_length_le; omega
+        have hrestdrop : tail ++ st.rest.drop k = encodeAll t := by
+          have h1 : st.rest.drop k = (encodeAll rem).drop (st.prepend.length + k) := by
+            rw [← inv.bytes, List.drop_append]
+            simp [List.drop_eq_nil_of_le]
+          rw [h1, hdt, encodeAll_append, List.drop_append, List.drop_eq_nil_of_le hle, List.nil_append, htail,
+            List.take_append_drop]
+        have hstops : Stops tail := by
+          rcases hcase with ⟨ht, _⟩ | ⟨q, qs, ht, hlt⟩
+          · rw [htail, ht]; simp [encodeAll, stops_nil]
+          · rw [htail, ht, encodeAll_cons]
+            exact stops_prefix names.length q (hvt q (by simp [ht])) _ _ (by omega)
+        have hdne : d ≠ [] := by
+          intro hd
+          rw [hd] at hdt hle hcase
+          simp only [List.nil_append] at hdt
+          rcases hcase with ⟨ht, hnn⟩ | ⟨q, qs, ht, hlt⟩
+          · simp [encodeAll] at hnn; omega
+          · have := hkt q (by simp [ht])
+            simp [encodeAll] at hlt; omega
+        rw [hchunk, decodeChunk_encode names d hvd tail hstops]
+        have : (d.map (view names)).isEmpty = false := by
+          cases d with
+          | nil => exact absurd rfl hdne
+          | cons r rs => rfl
+        simp only [this, Bool.false_eq_true, if_false, List.flatten_cons]
+        have hdrop : (encodeAll d ++ tail).drop (encodeAll d).length = tail := by simp
+        rw [hdrop]
+        have inv' : Inv { rest := st.rest.drop k, prepend := tail } t := by
+          refine ⟨hrestdrop, ?_, ?_⟩
+          · intro q qs ht
+            rcases hcase with ⟨ht', _⟩ | ⟨q', qs', ht', hlt⟩
+            · rw [ht'] at ht; cases ht
+            · rw [ht'] at ht; cases ht
+              rw [htail]; simp only [List.length_take]; omega
+          · intro ht
+            rw [htail, ht]; simp [encodeAll]
+        rw [ih _ t inv' hvt hkt (by simp only [List.length_drop]; omega)]
+        rw [hdt, List.map_append]
+
+/-- **C16 chunking clause**: for EVERY list of valid records and EVERY chunk size at least as
+large as the largest record, `read_chunks` delivers exactly the records of the whole file, in order. -/
+theorem chunked (names : List Bytes) (recs : List Rec) (hv : ∀ r ∈ recs, valid names.length r = true)
+    (k : Nat) (hk : ∀ r ∈ recs, (encodeRec r).length ≤ k) :
+    (readAllChunks false false names k (encodeAll recs)).flatten = readWhole false false names (encodeAll recs) := by
+  rw [decode_encode names recs hv]
+  unfold readAllChunks
+  apply readChunks_spec names k _ _ recs _ hv hk (by simp)
+  exact ⟨by simp, by intro r rs _; simp; have := encodeRec_pos r; omega, fun _ => rfl⟩
+
+/-! ### unmapped records -/
+
+/-- **C16 unmapped clause** (repaired rule): a record with a negative refID decodes to "no
+reference" (`*`), whatever the reference list is, and `*` is none of the reference names. -/
+theorem unmapped (names : List Bytes) (recs : List Rec) (hv : ∀ r ∈ recs, valid names.length r = true)
+    (hs : star ∉ names) (i : Nat) (r : Rec) (hi : recs[i]? = some r) (hr : r.refID < 0) :
+    ∃ d, (readWhole false false names (encodeAll recs))[i]? = some d ∧ d.chrom = star ∧ d.chrom ∉ names := by
+  rw [decode_encode names recs hv]
+  refine ⟨view names r, by simp [hi], ?_⟩
+  have : (view names r).chrom = star := by simp [view, specChrom, hr]
+  rw [this]; exact ⟨rfl, hs⟩
+
+/-- the rule the code shipped with (`names[refID]`, so `names[-1]`) is unsound: the unmapped
+record of the witness decodes to the name of the LAST reference. Kept as the recorded refutation. -/
+theorem unmappedOld_unsound :
+    let names : List Bytes := [[99, 104, 114, 49], [99, 104, 114, 88]]
+    let r : Rec := { refID := -1, pos := -1, mapq := 0, bin := 0, flag := 4, nextRef := -1, nextPos := -1, tlen := 0,
+                     name := [117], cigar := [], seq := [1, 2, 4], qual := [9, 9, 9], tags := [] }
+    valid 2 r = true ∧
+    (readWhole false true names (encodeAll [r])).map (·.chrom) = [[99, 104, 114, 88]] ∧
+    specChrom names r.refID = none := by decide +kernel
+
+/-- the rule the code shipped with (`n_cigar_op * 4` evaluated in uint16) is unsound from 16384
+CIGAR operations on: the CIGAR is taken to be empty and the sequence is read from the CIGAR bytes. -/
+theorem cigarBytesOld_unsound : cigarBytes true 16384 = 0 ∧ cigarBytes false 16384 = 65536 := by decide
+
+/-! ### reference interval -/
+
+theorem consumes_spec (op : Nat) :
+    (([true, false, true, true, false, false, false, true, true] : List Bool)[op]?).getD false = specConsumes op := by
+  match op with
+  | 0 | 1 | 2 | 3 | 4 | 5 | 6 | 7 | 8 => rfl
+  | n + 9 => simp [specConsumes]
+
+/-- Gen obligation: the consuming set tabulated from the running code is {M, D, N, =, X} -/
+theorem gen_consumes : Gen.C16.consumes = [true, false, true, true, false, false, false, true, true] := by decide
+
+theorem refLen_spec (c : List (Nat × Nat)) :
+    refLen Gen.C16.consumes (c.map (·.1)) (c.map (·.2)) = specRefLen c := by
+  rw [gen_consumes]
+  induction c with
+  | nil => rfl
+  | cons p c ih =>
+    obtain ⟨op, l⟩ := p
+    simp only [List.map_cons, refLen, specRefLen, consumes_spec, ih]
+
+theorem and16 (x : Nat) : x &&& 16 = 16 * (x / 16 % 2) := by
+  have h1 := @Nat.and_div_two_pow x 16 4
+  have h2 := @Nat.and_mod_two_pow x 16 4
+  have e1 : (16:Nat) / 2 ^ 4 = 1 := by decide
+  have e2 : (16:Nat) % 2 ^ 4 = 0 := by decide
+  have e3 : (2:Nat)^4 = 16 := by decide
+  rw [e1, Nat.and_one_is_mod] at h1
+  rw [e2, Nat.and_zero] at h2
+  rw [e3] at h1 h2
+  omega
+
+/-- **C16 interval clause**: the interval computed from a decoded record is
+`[pos, pos + Σ lengths of reference-consuming ops)` with the consuming set {M,D,N,=,X} (tabulated
+from the running code), strand `-` iff flag bit 0x10. -/
+theorem ref_interval (names : List Bytes) (r : Rec) :
+    intervalOf Gen.C16.consumes (view names r) = specInterval names r := by
+  unfold intervalOf specInterval
+  simp only [view, refLen_spec, and16]
+  congr 1
+  have : r.flag / 16 % 2 = 0 ∨ r.flag / 16 % 2 = 1 := by omega
+  rcases this with h | h <;> simp [h]
+
+/-- the intervals of a whole file -/
+theorem ref_interval_file (names : List Bytes) (recs : List Rec) (hv : ∀ r ∈ recs, valid names.length r = true) :
+    (readWhole false false names (encodeAll recs)).map (intervalOf Gen.C16.consumes) = recs.map (specInterval names) := by
+  rw [decode_encode names recs hv, List.map_map]
+  apply List.map_congr_left
+  intro r _
+  exact ref_interval names r
+
+/-! ### Gen obligations: alphabets, repaired rules, fixed offsets (re-extracted from /repo every run) -/
+
+theorem gen_cigar_letters : Gen.C16.cigarLetters = "MIDNSHP=X".toList.map Char.toNat := by decide
+theorem gen_seq_letters : Gen.C16.seqLetters = "=ACMGRSVTWYHKDBN".toList.map Char.toNat := by decide
+
+/-- the running code uses the repaired rules (so the model instance the theorems are about,
+`oldCig = oldChrom = false`, is the one the correspondence driver runs) -/
+theorem gen_rules_repaired : Gen.C16.oldChrom = false ∧ Gen.C16.oldCig = false := by decide
+
+/-- the fixed offsets of the running code are the model's: incrementing each probed byte of a
+template record changes exactly the field the model reads there, by the same amount -/
+theorem gen_probe_ok : Gen.C16.probe = Gen.C16.probeOffsets.map (probeObs Gen.C16.probePad) := by decide +kernel
+
+/-! ### non-vacuity: the hypotheses are satisfiable by non-trivial values -/
+
+def exNames : List Bytes := [[99, 104, 114, 49], [99, 104, 114, 88]]
+/-- mapped, odd sequence length, three CIGAR ops, tags -/
+def exR1 : Rec := { refID := 0, pos := 10, mapq := 30, bin := 4681, flag := 0, nextRef := -1, nextPos := -1, tlen := 0,
+                    name := [114, 49], cigar := [(0, 5), (1, 2), (2, 3)], seq := [1, 2, 4, 8, 15, 1, 2],
+                    qual := [1, 2, 3, 4, 5, 6, 7], tags := [1, 2, 3] }
+/-- unmapped, even sequence length, no CIGAR -/
+def exR2 : Rec := { refID := -1, pos := -1, mapq := 0, bin := 0, flag := 4, nextRef := -1, nextPos := -1, tlen := 0,
+                    name := [117], cigar := [], seq := [1, 2], qual := [9, 9], tags := [] }
+/-- reverse strand, all remaining ops -/
+def exR3 : Rec := { refID := 1, pos := 99, mapq := 255, bin := 0, flag := 16, nextRef := 0, nextPos := 5, tlen := -7,
+                    name := [120, 121, 122], cigar := [(4, 1), (7, 3), (8, 1), (3, 10), (5, 2), (6, 1)], seq := [],
+                    qual := [], tags := [] }
+
+example : ∀ r ∈ [exR1, exR2, exR3], valid exNames.length r = true := by decide
+example : (encodeRec exR1).length = 65 ∧ (encodeRec exR2).length = 41 ∧ (encodeRec exR3).length = 64 := by decide
+example : (readWhole false false exNames (encodeAll [exR1, exR2, exR3])).map (·.chrom) = [[99, 104, 114, 49], star, [99, 104, 114, 88]] := by
+  decide +kernel
+example : (readAllChunks false false exNames 65 (encodeAll [exR1, exR2, exR3])).map List.length = [1, 1, 1] := by decide +kernel
+example : (recs : List Rec) → recs = [exR1, exR2, exR3] → ∀ i ∈ [2, 0, 0], i < recs.length := by
+  intro recs h; subst h; decide
+example : (intervalOf Gen.C16.consumes (view exNames exR3)).stop = 113 ∧ (intervalOf Gen.C16.consumes (view exNames exR3)).minus = true := by
+  decide +kernel
+example : star ∉ exNames := by decide
+
+/-- the chunk-size bound of the property is needed: with a chunk size below the largest record the
+reader (as modelled, and as the code behaves) delivers nothing -/
+theorem chunk_bound_needed :
+    (readAllChunks false false exNames 64 (encodeAll [exR1, exR2, exR3])).flatten = [] := by decide +kernel
 
 end C16
